@@ -317,4 +317,74 @@ theorem persist_build {c : Consts} (hc : GoodConsts c) {s : Info} (hnd : s.dist 
       simp only [Option.bind_some] at hrt
       simp only [hrt, Option.map_some]
 
+/-! ## bulks that are (partially) retried: the duplicate filter of the index worker
+
+`appendWorker`: `appended := DocsPositions.SetMultiple(collector.IDs, ..)` keeps the IDs that are not stored yet (a
+second occurrence inside the bulk is not appended either); when `len(appended) != len(collector.IDs)` the collector
+is filtered (`metaDataCollector.Filter(appended)`): the surviving entries are those of `collector.IDs` whose ID is in
+`appended`, in bulk order, `MinMID/MaxMID` are recomputed over them from `MaxUint64 / 0` with two independent
+comparisons (as `AppendMeta` does while collecting), `DocsCounter = len(appended)`; then `UpdateStats`. -/
+
+/-- `DocsPositions.SetMultiple` for IDs `(mid, rid)` (plain documents) -/
+def setMultiple (stored : List (Nat × Nat)) : List (Nat × Nat) → List (Nat × Nat)
+  | [] => []
+  | id :: rest => if id ∈ stored then setMultiple stored rest else id :: setMultiple (id :: stored) rest
+
+/-- the collector's IDs after the optional `Filter(appended)` -/
+def survivors (bulk appended : List (Nat × Nat)) : List (Nat × Nat) :=
+  if appended.length = bulk.length then bulk else bulk.filter fun id => decide (id ∈ appended)
+
+/-- `metaDataCollector` stats of a list of IDs: `(MinMID, MaxMID)` - the same fold in `AppendMeta` and in `Filter` -/
+def collectorStats (ids : List (Nat × Nat)) : Nat × Nat := (batchMin (ids.map Prod.fst), batchMax (ids.map Prod.fst))
+
+/-- one bulk through the index worker of an active fraction: `(info, stored IDs)` -/
+def ingestBulk (st : Info × List (Nat × Nat)) (bulk : List (Nat × Nat)) : Info × List (Nat × Nat) :=
+  let appended := setMultiple st.2 bulk
+  let surv := survivors bulk appended
+  (updateStats st.1 (collectorStats surv).1 (collectorStats surv).2 appended.length, st.2 ++ appended)
+
+theorem setMultiple_sublist (stored bulk : List (Nat × Nat)) : (setMultiple stored bulk).Sublist bulk := by
+  induction bulk generalizing stored with
+  | nil => exact List.Sublist.slnil
+  | cons id rest ih =>
+    unfold setMultiple
+    split
+    · exact List.Sublist.cons _ (ih stored)
+    · exact List.Sublist.cons_cons _ (ih (id :: stored))
+
+theorem mem_survivors {bulk appended : List (Nat × Nat)} (hsub : appended.Sublist bulk) {id : Nat × Nat}
+    (h : id ∈ appended) : id ∈ survivors bulk appended := by
+  unfold survivors
+  split
+  · exact hsub.subset h
+  · rw [List.mem_filter]; exact ⟨hsub.subset h, by simpa using h⟩
+
+/-- the borders cover every stored document after any history of (partially retried, arbitrarily ordered) bulks -/
+theorem covers_ingest {st : Info × List (Nat × Nat)} (h : Covers st.1 (st.2.map Prod.fst)) (bulk : List (Nat × Nat)) :
+    Covers (ingestBulk st bulk).1 ((ingestBulk st bulk).2.map Prod.fst) := by
+  simp only [ingestBulk, List.map_append]
+  have hsub := setMultiple_sublist st.2 bulk
+  have hlen : (setMultiple st.2 bulk).length = ((setMultiple st.2 bulk).map Prod.fst).length := by simp
+  rw [hlen]
+  apply covers_updateStats h
+  · intro m hm
+    rcases List.mem_map.1 hm with ⟨id, hid, rfl⟩
+    exact (batchMin_le _ 18446744073709551615).2 _ (List.mem_map_of_mem (mem_survivors hsub hid))
+  · intro m hm
+    rcases List.mem_map.1 hm with ⟨id, hid, rfl⟩
+    exact (batchMax_ge _ 0).2 _ (List.mem_map_of_mem (mem_survivors hsub hid))
+
+theorem covers_ingest_foldl {st : Info × List (Nat × Nat)} (h : Covers st.1 (st.2.map Prod.fst))
+    (hist : List (List (Nat × Nat))) :
+    Covers (hist.foldl ingestBulk st).1 ((hist.foldl ingestBulk st).2.map Prod.fst) := by
+  induction hist generalizing st with
+  | nil => exact h
+  | cons b bs ih => simp only [List.foldl_cons]; exact ih (covers_ingest h b)
+
+theorem ingest_dist (st : Info × List (Nat × Nat)) (hist : List (List (Nat × Nat))) :
+    (hist.foldl ingestBulk st).1.dist = st.1.dist ∧ (hist.foldl ingestBulk st).1.creationTime = st.1.creationTime := by
+  induction hist generalizing st with
+  | nil => exact ⟨rfl, rfl⟩
+  | cons b bs ih => simp only [List.foldl_cons]; exact ih (ingestBulk st b)
+
 end SV.FracInfo
